@@ -33,6 +33,7 @@ type Line struct {
 	Outs     []string    `json:"outs"`
 	DestDirs []string    `json:"destdirs"`
 	Judge    []string    `json:"judge"`
+	Excuse   []string    `json:"excuse"`
 	Outcome  string      `json:"outcome"`
 	Final    []FinalEnt  `json:"final"`
 }
@@ -56,7 +57,7 @@ type FinalEnt struct {
 }
 
 func blank(ev string, t int) Line {
-	return Line{Ev: ev, T: t, Mv: [][3]string{}, Init: []InitEnt{}, Prot: []string{}, Outs: []string{}, DestDirs: []string{}, Judge: []string{}, Final: []FinalEnt{}}
+	return Line{Ev: ev, T: t, Mv: [][3]string{}, Init: []InitEnt{}, Prot: []string{}, Outs: []string{}, DestDirs: []string{}, Judge: []string{}, Excuse: []string{}, Final: []FinalEnt{}}
 }
 
 func dirOf(p string) string {
@@ -76,6 +77,7 @@ type Meta struct {
 	Outs     []string // paths the operation is allowed / expected to publish
 	DestDirs []string // directories in which creations are allowed (C02 hidden leftovers, C05)
 	Judge    []string // c01 c01m c02 c03 c05
+	Excuse   []string // paths whose own removal was made to fail: they may remain after a failed operation (C01)
 	OkPDF    func(rel string) bool
 }
 
@@ -91,7 +93,7 @@ func (r *Result) Lines(m Meta) []Line {
 	var out []Line
 	b := blank("begin", m.T)
 	b.Name = m.Name
-	b.Prot, b.Outs, b.DestDirs, b.Judge = nz(m.Prot), nz(m.Outs), nz(m.DestDirs), nz(m.Judge)
+	b.Prot, b.Outs, b.DestDirs, b.Judge, b.Excuse = nz(m.Prot), nz(m.Outs), nz(m.DestDirs), nz(m.Judge), nz(m.Excuse)
 	// initial entries; hard links share an inode id and a content tag
 	names := make([]string, 0, len(r.Before))
 	for k := range r.Before {
